@@ -11,6 +11,14 @@ fresh reader -- are created; PREFIXES_Q / PREFIXES_T), all assignments x every w
 every minimal file must then carry the configured prefix (an entry written with another prefix is not an entry of that
 file for its reader), and the round trip must hold exactly as with the stock prefix.
 
+Target dimension (kconfgen route): kconfgen.core.write_min_config() builds a header that carries the IDF_TARGET assignment
+only when the target is not "esp32", so the header and the body share the responsibility for that one option.  The
+idf_target programs define a string option IDF_TARGET (prompt: always / conditional / none) with every shape of Kconfig
+default (none, "esp32", another target, conditional lists that start with either, a conditional-only one), top level or
+inside a menu (labelled writer), before or after the options that depend on it (conditional defaults, `depends on`,
+a promptless copy); user values of IDF_TARGET range over TARGET_DOM_* = {default, esp32, the tree's other default target,
+a third target}; x all assignments of the other options x every writer variant, with the same round-trip oracle.
+
 Oracle: a fresh instance that loads the minimal file has the same value for every option as the original;
 the labelled and unlabelled variants contain the same assignment lines in the same order.
 """
@@ -32,6 +40,9 @@ RULE = (
     "programs = C01 families prec/bool/nest/multi + choice programs (conditional members, conditional defaults, named, nested) + "
     "menu-label programs; x all assignments over per-type domains (bool {-,n,y}; int {-,3,7,42}; hex {-,0x5,1f}; string {-,'',v1,'a b'}; "
     "float {-,0.5,5}); x {write_min_config(labels,normalize_unset) for the 4 combinations, kconfgen.write_min_config}. "
+    "+ idf_target programs: string option IDF_TARGET with Kconfig defaults {none, esp32, esp32s3, esp32s3 if A / esp32, esp32 if A / esp32s3, esp32c3 if A} x prompt {always, if A, none} "
+    "x {top level, in a menu} (thorough: x dependents before / after it), options depending on it (conditional defaults, depends on, promptless copy), "
+    "user value of IDF_TARGET over {-, esp32, esp32s3, esp32c3} (thorough: + '', linux) x all assignments of the other options; "
     "x option prefix {stock CONFIG_} for every program, and {BOARD_} (thorough: + CONFIG_X_, cfg) for the choice / label programs and every "
     "25th program of each C01 family (the environment variable CONFIG_ is set when the writer and the reader instance are created). "
     "distinct_nontrivial = distinct (prefix, program, minimal file text) with at least one assignment line."
@@ -102,8 +113,43 @@ def label_programs() -> Iterator[Tuple[str, Program]]:
     yield ("labels_empty_menu", Program(children=[A("A"), Menu(title="empty", children=[]), Menu(title="only promptless", children=[Cfg("P", "int", defaults=[(L("1"), S("A")), (L("2"), None)])]), Cfg("Z", "int", prompt="z", defaults=[(L("3"), None)])]))
 
 
+# user values of the option IDF_TARGET (the header written by kconfgen treats the value "esp32" specially)
+TARGET_DOM_Q = [None, "esp32", "esp32s3", "esp32c3"]
+TARGET_DOM_T = [None, "esp32", "esp32s3", "esp32c3", "", "linux"]
+
+
+def idf_target_programs(tier: str) -> Iterator[Tuple[str, Program]]:
+    """Trees with an option IDF_TARGET: Kconfig defaults x prompt x placement (x order of the dependents, thorough)."""
+    def q(t):
+        return L(f'"{t}"')
+
+    def is_t(t):
+        return kgen.Rel("=", S("IDF_TARGET"), q(t))
+
+    default_shapes = [
+        [],
+        [(q("esp32"), None)],
+        [(q("esp32s3"), None)],
+        [(q("esp32s3"), S("A")), (q("esp32"), None)],
+        [(q("esp32"), S("A")), (q("esp32s3"), None)],
+        [(q("esp32c3"), S("A"))],
+    ]
+    prompts = [("t", None), ("t", S("A")), (None, None)]
+    for dfl, (prompt, pcond), in_menu, deps_first in itertools.product(default_shapes, prompts, (False, True), (False, True) if tier != "quick" else (False,)):
+        target = Cfg("IDF_TARGET", "string", prompt=prompt, prompt_cond=pcond, defaults=list(dfl))
+        flash = Cfg("FLASH", "int", prompt="f", defaults=[(L("4096"), is_t("esp32s3")), (L("2048"), is_t("esp32")), (L("1024"), None)])
+        w = Cfg("W", "bool", prompt="w", depends=[is_t("esp32")], defaults=[(L("y"), None)])
+        h = Cfg("H", "string", defaults=[(S("IDF_TARGET"), None)])
+        deps = [flash, w, h]
+        inner = deps + [target] if deps_first else [target] + deps
+        body = [Menu(title="Build", children=inner[:2]), *inner[2:]] if in_menu else inner
+        yield ("idf_target", Program(children=[A("A"), *body]))
+
+
 def items(tier: str, seed: int):
     out = []
+    for name, prog in idf_target_programs(tier):
+        out.append((name, kgen.render(prog), prog, tier))
     fams = [c01.fam_prec, c01.fam_bool, c01.fam_nest, c01.fam_multi]
     for fam in fams:
         for name, prog in fam(tier):
@@ -239,6 +285,12 @@ def check_one(fam: str, files, model, names, assign, r: common.Result, prev=None
             sig = {"kind": "value_not_reconstructed", "features": feats, "labels": "labels=True" in variant or "labels=1" in variant}
             if prefix is not None:
                 sig["prefix"] = "non-default"
+            if "IDF_TARGET" in diff:
+                # the one option whose assignment kconfgen's header may carry instead of the body
+                # (the differences of the options that depend on it are consequences: the class is named after the target option alone)
+                sig["features"] = [feature(k.syms["IDF_TARGET"], c)]
+                sig["sym"] = "IDF_TARGET"
+                sig["writer"] = "kconfgen" if variant.startswith("kconfgen") else "Kconfig"
             r.violation(sig,
                         f"{label} {variant}: original vs reloaded {diff}; minimal file: {text!r}", case)
     if prefix is not None:
@@ -290,7 +342,8 @@ def run_item(item) -> common.Result:
     model = refsem.build(prog)
     names = [n for n in model.order if any(d.prompt is not None for d in model.syms[n].defs)]
     DOM = DOM_Q if tier == "quick" else DOM_T
-    doms = [DOM[model.syms[n].type] for n in names]
+    TDOM = TARGET_DOM_Q if tier == "quick" else TARGET_DOM_T
+    doms = [list(TDOM) if n == "IDF_TARGET" else DOM[model.syms[n].type] for n in names]
     if prefix is not None:
         # the string value that reads like an entry of the file is spelt with the configured prefix as well
         doms = [d + [v.replace("CONFIG_", prefix) for v in d if v and "CONFIG_" in v] for d in doms]
